@@ -521,7 +521,23 @@ Definition cl_session (k : nat) (T : list event) : bool := forallb (sess_wf k) T
 Definition in_range (b n : nat) (e : event) : bool :=
   match ev_req e with Some r => Nat.leb b r && Nat.ltb r (b + n) | None => true end.
 
+(* C10: every request the client sends before one that ends the connection
+   (hijack, "Connection: close", an established blind tunnel) is read and
+   runs the request modifier: as many request-modifier calls as that. *)
+Definition ends (q : req) : bool :=
+  match snd (block 0 0 0 q) with Stop => true | Continue => false end.
+
+Fixpoint nread (reqs : list req) : nat :=
+  match reqs with
+  | [] => 0
+  | q :: rest => if ends q then 1 else S (nread rest)
+  end.
+
+Definition cl_presented (reqs : list req) (T : list event) : bool :=
+  Nat.eqb (count is_reqmod T) (nread reqs).
+
 Inductive clause :=
+| CPresented
 | CHijack | CReqmod | CResmod | CCtxFresh | CSession | CNoContext | CError | CSkip | CScope | CRelay.
 
 (* First failing clause of one connection. *)
@@ -535,6 +551,7 @@ Definition conn_fail (k b : nat) (reqs : list req) (T : list event) : option cla
   else if negb (cl_error b reqs T) then Some CError
   else if negb (cl_skip b reqs T) then Some CSkip
   else if negb (cl_relay b reqs T) then Some CRelay
+  else if negb (cl_presented reqs T) then Some CPresented
   else None.
 
 Fixpoint conns_fail (k b : nat) (conns : list (list req)) (Ts : list (list event)) : option clause :=
